@@ -7,6 +7,18 @@ by construction.  The useful direction is proved here: WHICH kinds ignore the co
 that device holds, the decode is the same), and WHAT the other two read (`regdata_reads_only_the_schema`,
 `thermostat_reads_only_the_count`), with witnesses that they really do depend on it.  The harness
 checks the implementation against exactly this: every kind under every context.
+
+What is content and what is not (round-8 audit, item 11).  MODELLING DECISIONS, true BY CONSTRUCTION of `Ctx5.decode`
+(Model/DecodeCtx.lean simply does not pass `ctx` to these decoders) and proved by `rfl`: the eight
+`ctx_irrelevant_<kind>`, `product_type_irrelevant`, `regdata_no_device_is_empty_schema` (and in C05CtxDevice
+`device_thermo_decodes_with_ctx`, `device_regdata_decodes_with_ctx`): eleven `rfl` results.  They record WHICH
+decoders the model gives the context to; that the CODE's decoders read no more than that is not proved by them —
+it is the content of harness/c05_ctx.py (every class with its own `decode_message` under 9-10 contexts, results
+grouped by what these statements allow).  `ctx_irrelevant`, `regdata_reads_only_the_schema`,
+`thermostat_reads_only_the_count` are the same decisions stated once per family.
+REAL CONTENT: the two witnesses `thermostat_ctx_relevant` / `regdata_ctx_relevant` (the dependence exists, so the
+split is sharp) and, in C05CtxDevice, `applyThermo_count`, `handleRegdata_schema` (handling a frame leaves alone what
+its own decode reads of the device) and `handled_again_same_decode` (hence: handled again, the same decode).
 -/
 namespace PlumVerif.C05
 open PlumVerif PlumVerif.Ctx5
